@@ -200,3 +200,23 @@ func (w *world) hangMonitor() {
 		os.Exit(0)
 	}
 }
+
+// busyFrames: functions on the way from a configuration change to the end of the key
+// import it triggers. portbase has no queue there: every step is a goroutine that exists
+// (runnable or running) from the moment the previous step created it, and SetConfigOption
+// creates the first one before it returns. So, once SetConfigOption has returned: if no
+// goroutine shows one of these frames, no import is running or pending — nothing further
+// will happen by itself. This is a structural fact about the process, not a time-out.
+var busyFrames = []string{"modules.(*Module).processEventTrigger", "modules.(*Module).runEventHook", "modules.(*Module).TriggerEvent", "api.updateAPIKeys",
+	"LowPriorityMicroTask", "modules.(*Module).runMicroTask", "config.setConfigOption", "config.SetConfigOption", "config.signalChanges", "config.SaveConfig"}
+
+// quiescent reports whether no configuration change is being processed or waiting to be.
+func quiescent() bool {
+	d := allStacks()
+	for _, f := range busyFrames {
+		if strings.Contains(d, f) {
+			return false
+		}
+	}
+	return true
+}
